@@ -77,42 +77,6 @@ theorem drop_prefix (a b : List Nat) (n : Nat) (h : a <+: b) : a.drop n <+: b.dr
   · have : a.drop n = [] := List.drop_of_length_le (by omega)
     rw [this]; exact List.nil_prefix
 
-/-- The abstract `ahead` on a stream that has not failed. -/
-theorem sspecAhead_live (all : List Nat) (pos : Nat) (t : Term) (cs l : Bool) (min : Nat) :
-    sspecAhead ⟨all, pos, t, false, cs, l⟩ min =
-      if min ≤ (all.drop pos).length then (.ok ((all.drop pos).take min), ⟨all, pos, t, false, cs, l⟩)
-      else match t with
-        | .eof => (.short (all.drop pos).length, ⟨all, pos, t, false, cs, l⟩)
-        | .err => (.fatal, ⟨all, pos, t, true, cs, l⟩) := by
-  unfold sspecAhead specAhead SSpec.toSpec
-  simp only [Bool.false_eq_true, if_false]
-  split
-  · rfl
-  · cases t <;> rfl
-
-/-- The abstract `consume` on a stream that has not failed. -/
-theorem sspecConsume_live (all : List Nat) (pos : Nat) (t : Term) (cs l : Bool) (n : Int) :
-    sspecConsume ⟨all, pos, t, false, cs, l⟩ n =
-      if n < 0 then (-30, ⟨all, pos, t, false, cs, l⟩)
-      else if n = 0 then (0, ⟨all, pos, t, false, cs, l⟩)
-      else if n.toNat ≤ (all.drop pos).length then (n, ⟨all, pos + n.toNat, t, false, cs, l⟩)
-      else match t with
-        | .eof => (-30, ⟨all, pos + (all.drop pos).length, t, false, cs, l⟩)
-        | .err => (-30, ⟨all, pos + (all.drop pos).length, t, true, cs, l⟩) := by
-  unfold sspecConsume specConsume SSpec.toSpec
-  simp only [Bool.false_eq_true, if_false]
-  by_cases h1 : n < 0
-  · simp [h1]
-  · by_cases h2 : n = 0
-    · simp [h2]
-    · simp only [h1, h2, if_false]
-      by_cases h3 : n.toNat ≤ (all.drop pos).length
-      · simp only [h3, if_true]
-        congr 2
-        simp at h3 ⊢; omega
-      · simp only [h3, if_false]
-        cases t <;> simp
-
 /-- **C08, truncation.**  If the stream a client reads is a prefix of the intact
 one (cut at any byte offset, ending in end-of-file or in a callback error),
 then either the client cannot tell the difference, or its run on the cut stream
@@ -326,22 +290,6 @@ theorem seek_refused_untouched (s : State) (off : Int) (w : Whence)
       · subst h; simp [hf', hcs]
     · have : s.canSeek = false := by simpa using hcs
       simp [hf', this]
-
-theorem clientSeek_head_fail (s : State) (w : Whence) (off : Int) (a : Int) (hs : s.hasSeeker = true)
-    (hh : s.seeks.head? = some a) (ha : a < 0) : (clientSeek s w off).1 = a := by
-  unfold clientSeek
-  simp [hs, hh, ha]
-
-theorem walkProbe_head_fail (stopAt : Option Int) (left c : Nat) (s : State) (a : Int) (hs : s.hasSeeker = true)
-    (hh : s.seeks.head? = some a) (ha : a < 0) : ∃ s', walkProbe stopAt left c s = .fail a s' := by
-  have hf := switchTo_filt s c
-  have hq := (switchTo_cache s c).2.2
-  have h1 := clientSeek_head_fail (switchTo s c) .end_ 0 a (by rw [hf.hasSeeker]; exact hs) (by rw [hq]; exact hh) ha
-  cases left <;>
-  · unfold walkProbe
-    simp only []
-    rw [if_pos (by rw [h1]; exact ha), h1]
-    exact ⟨_, rfl⟩
 
 /-- **A failing seek callback is reported**: if the callback fails at its next invocation with
 code `a < 0`, the seek request returns `a` (whatever the target), and `position` stays. -/
